@@ -14,5 +14,7 @@ CONSTANTS
   SimMode = FALSE
   VarLens = {0}
   VarW = {1, 2, 3}
+  VarBad = {"none"}
+  HistChoices <- HistTwo
 INVARIANT ImplRefines
 INVARIANT InvWellFormed
